@@ -37,6 +37,7 @@ public:
   AesFactory(u8_t *key): key(key) {};
   AesFactory(u8_t *key, const u8_t * iv): key(key), iv(iv) {};
   static std::string getName(u8_t type);
+  static bool isType(u8_t type) { return type <= 4; };
   void loadiv(const u8_t * iv){this->iv = iv;};
   Aesmode * createCryMaster(bool isenc, u8_t type);
 };
